@@ -159,12 +159,20 @@ def _codec(rep, prog):
     if body is None:
         raise AnalysisBroken('decoder: token loop not found')
     chain = None
-    for s in body['s']:
+    lead = []
+    stmts = body['s']
+    for i, s in enumerate(stmts):
         if s['k'] == 'If' and 'token' in astu.src(s['c']) and s.get('e') is not None:
             chain = s
+            # a preceding `if (token...) { ...; continue; }` is the first arm of the same chain (else-if flattened after a continue)
+            j = i - 1
+            while j >= 0 and stmts[j]['k'] == 'If' and stmts[j].get('e') is None and 'token' in astu.src(stmts[j]['c']) and \
+                    (stmts[j]['t']['s'][-1] if stmts[j]['t']['k'] == 'Compound' and stmts[j]['t']['s'] else stmts[j]['t'])['k'] == 'Continue':
+                lead.insert(0, stmts[j])
+                j -= 1
     if chain is None:
         raise AnalysisBroken('decoder: token if-chain not found')
-    arms = []
+    arms = [(astu.src(x['c']), x['t']) for x in lead]
     x = chain
     while x is not None and x['k'] == 'If':
         arms.append((astu.src(x['c']), x['t']))
@@ -230,15 +238,54 @@ def _codec(rep, prog):
                 return T(k, j)
             if x['k'] == 'Ref' and x['name'] in symnames:
                 return symnames[x['name']]
+            if x['k'] == 'Ref' and x.get('dk') == 'local' and x['name'] not in ('cur9',) and x.get('id') not in busy:
+                return cached_local(x)
             return None
+
+        def cached_local(x):
+            # a local that caches a power of ten of the level: every symbolic definition must be the same polynomial, every constant
+            # definition its value before the first marker (cur9 = -1, T = 1/10), and every raise of cur9 must refresh it
+            from ..rules.scopes import Locals, parent_map
+            L = Locals(dec)
+            v = L.decl.get(x['id'])
+            if v is None:
+                return None
+            defs = ([v['init']] if 'init' in v else []) + [a['b'] for a in L.assigns.get(x['id'], []) if a['op'] == '=']
+            if not defs or any(a['op'] != '=' for a in L.assigns.get(x['id'], [])):
+                return None
+            busy.add(x['id'])
+            try:
+                vals = [_ResAlg(res).ex(dec, d, {}, 0) for d in defs]
+            finally:
+                busy.discard(x['id'])
+            sym = [p_ for p_ in vals if p_.symbols()]
+            if not sym or any(p_ != sym[0] for p_ in sym):
+                return None
+            at0 = Poly({tuple((s_, e_) for s_, e_ in k if s_ != 'T'): c * (Fraction(1, 10) ** dict(k).get('T', 0)) for k, c in sym[0].t.items()})
+            if any(p_ != at0 for p_ in vals if not p_.symbols()):
+                raise _Stale('cached %s starts at a value that is not its formula at cur9 = -1' % x['name'])
+            pm = parent_map(dec['body'])
+            for a in astu.walk(dec['body']):
+                if a['k'] == 'Bin' and a['op'] == '=' and astu.src(a['a']) == 'cur9' and astu.num_value(astu.strip_casts(a['b'])) is None:
+                    blk = pm.get(id(pm.get(id(a), {})), {})
+                    sibs = blk.get('s', []) if blk.get('k') == 'Compound' else []
+                    after = [t for t in sibs if t.get('l', 0) >= a.get('l', 0)]
+                    if not any(y['k'] == 'Bin' and y['op'] == '=' and astu.strip_casts(y['a']).get('id') == x['id'] for t in after for y in astu.walk(t)):
+                        raise _Stale('cached %s is not refreshed where cur9 is raised (line %s): a stale power of ten is used after the level changes' % (x['name'], a.get('l')))
+            return sym[0]
+        busy = set()
         return _ResAlg(res).ex(dec, e, {}, 0)
     db = [n for n in astu.walk(dec['body']) if n['k'] == 'Bin' and n['op'] == '=' and astu.src(n['a']) == 'bias9']
+    stale = []
     try:
         okdb = len(db) == 1 and cpp_poly(db[0]['b'], {}) == want_bias
+    except _Stale as ex:
+        okdb = False
+        stale.append(str(ex))
     except AnalysisBroken as ex:
         raise AnalysisBroken('decoder: the bias formula is outside the algebra this rule can normalise (%s): cannot decide' % ex)
     rep.add('CODEC', 'bias', where(dec, db[0].get('l') if db else None), 'both sides use bias9 = 1 - 10^-cur9, recomputed right after cur9 '
-            'is raised', bool(okb) and okdb)
+            'is raised', bool(okb) and okdb, '; '.join(stale) or None)
     # value formula: inverse of each other
     dv = [n for n in astu.walk(else_arm) if n['k'] == 'Bin' and n['op'] == '=' and astu.src(n['a']) == 'cprob']
     ev = enc.assigns(vals[0][0].split(':')[2]) if vals and vals[0][0].startswith('float:') else \
@@ -252,6 +299,8 @@ def _codec(rep, prog):
                             else (_ for _ in ()).throw(AnalysisBroken('encoder symbol ' + s)))
             okinv = back == Poly.sym('d') and 'd' in d.symbols()
             why = None if okinv else 'decode(d) = %r; encode(decode(d)) = %r' % (d, back)
+        except _Stale as ex:
+            why = str(ex)
         except (AnalysisBroken, KeyError) as ex:
             raise AnalysisBroken('codec: a value formula is outside the algebra this rule can normalise (%s): cannot decide' % ex)
     else:
@@ -308,6 +357,10 @@ def _linear_exp(e, var):
     raise AnalysisBroken('exponent %s is not linear in %s' % (astu.src(e), var))
 
 
+class _Stale(Exception):
+    pass
+
+
 class _ResAlg(symalg.Alg):
     def __init__(self, resolver):
         super().__init__(None)
@@ -328,8 +381,21 @@ def _is(e, *shape):
 
 
 def _search(rep, prog):
+    n0 = len(rep.instances)
     fn = prog.fn(GA + '::_shoot_e1_e2_inverse_transform_method_')
-    F = cppflow.Flow(fn)
+    direct = cppflow.Flow(fn)
+    own_loops = [b for b in direct.nodes(kind='branch') if _is(b.stmt[1], 'op', '<=') and _is(b.stmt[1][3], 'call', 'std::vector::size')]
+    _search_body(rep, prog, fn)
+    if len(own_loops) < 2 and any(not i.ok for i in rep.instances[n0:]):
+        # the searches live in helper functions; expanded, they are not in the one shape this rule can judge (found = i; break)
+        bad = [i for i in rep.instances[n0:] if not i.ok]
+        del rep.instances[n0:]
+        rep.cannot_decide('SEARCH', where(fn), 'the table searches were moved into helper functions whose expanded form is not the recognised '
+                          'first-cell search (%s)' % bad[0].desc[:80])
+
+
+def _search_body(rep, prog, fn):
+    F = cppflow.Flow(fn, helpers={k: v for k, v in cppflow.private_helpers(prog, fn).items() if not v.get('method')})
     g = F.g
     outs = [p['name'] for p in fn['params'][1:3]]
     # search loops: BRANCH (i <= size(V)) whose true arm is BRANCH (u <= V[i-1]) -> found := i-1 -> loop exit
@@ -439,7 +505,7 @@ def _search(rep, prog):
 # ----------------------------------------------------------------------------------------------- REJECTION
 def _rejection(rep, prog):
     fn = prog.fn(GA + '::_shoot_e1_e2_rejection_')
-    F = cppflow.Flow(fn)
+    F = cppflow.Flow(fn, helpers={k: v for k, v in cppflow.private_helpers(prog, fn).items() if not v.get('method')})
     g = F.g
     outs = [p['name'] for p in fn['params'][1:3]]
     setn = {o: [n for n in F.nodes(kind='assign') if n.stmt[1] == ('var', o)] for o in outs}
